@@ -31,6 +31,28 @@ def run_property(prop: str, tier: str, seed: int, overlay: dict[str, str] | None
     return rc, ctx
 
 
+def _mypy_cross_check(prop: str, ctx: Context) -> dict | None:
+    """Thorough tier: every call edge inside the functions this check analysed must agree with mypy's resolved program."""
+    from . import mypyx
+    from .selftest import VERIF
+    try:
+        table = mypyx.mypy_call_table(os.environ.get("VERIF_REPO", "/repo"))
+    except Exception as exc:  # noqa: BLE001 - mypy is a cross-check, not the deciding step
+        res = {"available": False, "reason": str(exc)[:200]}
+        print(f"{prop}: mypy cross-check unavailable ({res['reason'][:80]})")
+    else:
+        res = dict(mypyx.cross_check(ctx.prog, sorted(ctx.functions), table), available=True)
+        whole = mypyx.cross_check(ctx.prog, sorted(ctx.prog.funcs), table)
+        res["whole_program"] = {k: whole[k] for k in ("agree", "disagree", "unresolved_by_mypy", "problems")}
+        print(f"{prop}: mypy cross-check over {len(ctx.functions)} analysed function(s): {res['agree']} call edge(s) agree, {res['disagree']} disagree, {res['unresolved_by_mypy']} not resolved by mypy")
+    f = VERIF / "evidence" / f"{prop}.json"
+    if f.exists():
+        ev = json.loads(f.read_text())
+        ev["coverage"]["mypy_cross_check"] = res
+        f.write_text(json.dumps(ev, indent=1, default=str))
+    return res if res.get("available") else None
+
+
 def main(argv: list[str] | None = None) -> int:
     ap = argparse.ArgumentParser()
     ap.add_argument("prop")
@@ -49,6 +71,11 @@ def main(argv: list[str] | None = None) -> int:
             print(f"replay {want['rule']} @ {want['key']}: {'REPRODUCED' if hit else 'not reproduced'}")
             return 1 if hit else 0
         from . import selftest
+        if args.tier == "thorough" and rc != 1:
+            xc = _mypy_cross_check(prop, ctx)
+            if xc is not None and xc["disagree"]:
+                print(f"ANALYSIS-ERROR: {prop}: call resolution disagrees with mypy at {[p_['call'] for p_ in xc['problems']][:5]}")
+                return 2
         if args.tier == "thorough":
             st = selftest.run_for(prop, jobs=int(os.environ.get("VERIF_JOBS", "16")))
         else:
